@@ -19,6 +19,7 @@ import (
 	"testing"
 	"time"
 
+	"github.com/refraction-networking/uquic/internal/congestion"
 	"github.com/refraction-networking/uquic/internal/monotime"
 	"github.com/refraction-networking/uquic/internal/protocol"
 	"github.com/refraction-networking/uquic/internal/utils"
@@ -81,6 +82,9 @@ type c20HRun struct {
 	now    monotime.Time
 	mds    protocol.ByteCount
 	shadow protocol.ByteCount // bytes in flight: ack-eliciting, sent, neither acknowledged nor declared lost
+	eventPrior protocol.ByteCount // the shadow when the current ACK / timer event began
+	sizes      map[protocol.PacketNumber]protocol.ByteCount
+	spyCalls   int
 	open   map[protocol.PacketNumber]*c20HFrame
 	sentPN []protocol.PacketNumber // all packet numbers used (including pure ACKs)
 
@@ -105,7 +109,7 @@ func (r *c20HRun) fail(sig, f string, a ...any) {
 }
 
 func c20HNew(cfg c20HCfg) *c20HRun {
-	r := &c20HRun{cfg: cfg, now: monotime.Time(cfg.Start), mds: protocol.ByteCount(cfg.MDS), open: map[protocol.PacketNumber]*c20HFrame{}, seen: map[string]bool{}}
+	r := &c20HRun{cfg: cfg, now: monotime.Time(cfg.Start), mds: protocol.ByteCount(cfg.MDS), open: map[protocol.PacketNumber]*c20HFrame{}, seen: map[string]bool{}, sizes: map[protocol.PacketNumber]protocol.ByteCount{}}
 	pers := protocol.PerspectiveClient
 	if cfg.Server {
 		pers = protocol.PerspectiveServer
@@ -116,6 +120,7 @@ func c20HNew(cfg c20HCfg) *c20HRun {
 	// the handshake is over: only the application-data packet number space is left
 	r.h.DropPackets(protocol.EncryptionInitial, r.now)
 	r.h.DropPackets(protocol.EncryptionHandshake, r.now)
+	r.h.congestion = &c20Spy{SendAlgorithmWithDebugInfos: r.h.congestion, r: r}
 	return r
 }
 
@@ -156,6 +161,56 @@ func (r *c20HRun) mode() SendMode {
 
 func (h *sentPacketHandler) getBytesInFlightC20() protocol.ByteCount { return h.bytesInFlight }
 
+// c20Spy sits between the handler and its congestion controller: what the handler tells the controller
+// about the bytes in flight decides whether the controller regards the sender as window-limited, so the
+// arguments are compared with the independent shadow (the value before the current event for
+// acknowledgements and losses, the value including the packet for a send).
+type c20Spy struct {
+	congestion.SendAlgorithmWithDebugInfos
+	r *c20HRun
+}
+
+func (s *c20Spy) OnPacketSent(t monotime.Time, bytesInFlight protocol.ByteCount, pn protocol.PacketNumber, bytes protocol.ByteCount, retransmittable bool) {
+	s.r.spyCalls++
+	if bytesInFlight != s.r.shadow {
+		s.r.fail("C20|handler|controller-told-wrong-bytes-in-flight|sent", "OnPacketSent(packet %d, %d bytes, ack-eliciting %v): bytes in flight %d, independent count %d", pn, bytes, retransmittable, bytesInFlight, s.r.shadow)
+	}
+	if f := s.r.open[pn]; (f != nil) != retransmittable || (f != nil && f.size != bytes) {
+		s.r.fail("C20|handler|controller-told-wrong-packet|sent", "OnPacketSent(packet %d, %d bytes, ack-eliciting %v) does not match what was sent", pn, bytes, retransmittable)
+	}
+	s.SendAlgorithmWithDebugInfos.OnPacketSent(t, bytesInFlight, pn, bytes, retransmittable)
+}
+
+func (s *c20Spy) OnPacketAcked(pn protocol.PacketNumber, ackedBytes, priorInFlight protocol.ByteCount, t monotime.Time) {
+	s.r.spyCalls++
+	if priorInFlight != s.r.eventPrior {
+		s.r.fail("C20|handler|controller-told-wrong-bytes-in-flight|acked", "OnPacketAcked(packet %d): prior bytes in flight %d, independent count before this ACK %d", pn, priorInFlight, s.r.eventPrior)
+	}
+	if sz, ok := s.r.sizes[pn]; !ok || sz != ackedBytes {
+		s.r.fail("C20|handler|controller-told-wrong-packet|acked", "OnPacketAcked(packet %d, %d bytes): sent with %d bytes (known: %v)", pn, ackedBytes, sz, ok)
+	}
+	s.SendAlgorithmWithDebugInfos.OnPacketAcked(pn, ackedBytes, priorInFlight, t)
+}
+
+func (s *c20Spy) OnCongestionEvent(pn protocol.PacketNumber, lostBytes, priorInFlight protocol.ByteCount) {
+	s.r.spyCalls++
+	if priorInFlight != s.r.eventPrior {
+		s.r.fail("C20|handler|controller-told-wrong-bytes-in-flight|lost", "OnCongestionEvent(packet %d): prior bytes in flight %d, independent count before this event %d", pn, priorInFlight, s.r.eventPrior)
+	}
+	if sz, ok := s.r.sizes[pn]; lostBytes != 0 && (!ok || sz != lostBytes) {
+		s.r.fail("C20|handler|controller-told-wrong-packet|lost", "OnCongestionEvent(packet %d, %d bytes): sent with %d bytes (known: %v)", pn, lostBytes, sz, ok)
+	}
+	s.SendAlgorithmWithDebugInfos.OnCongestionEvent(pn, lostBytes, priorInFlight)
+}
+
+func (s *c20Spy) CanSend(bytesInFlight protocol.ByteCount) bool {
+	s.r.spyCalls++
+	if bytesInFlight != s.r.shadow {
+		s.r.fail("C20|handler|controller-told-wrong-bytes-in-flight|cansend", "CanSend(%d), independent count %d", bytesInFlight, s.r.shadow)
+	}
+	return s.SendAlgorithmWithDebugInfos.CanSend(bytesInFlight)
+}
+
 func (r *c20HRun) send(size protocol.ByteCount, ackEliciting, mtuProbe bool) {
 	pn := r.h.PopPacketNumber(protocol.Encryption1RTT)
 	var frames []Frame
@@ -164,6 +219,7 @@ func (r *c20HRun) send(size protocol.ByteCount, ackEliciting, mtuProbe bool) {
 		frames = []Frame{{Frame: &wire.PingFrame{}, Handler: f}}
 		r.open[pn] = f
 		r.shadow += size
+		r.sizes[pn] = size
 	}
 	r.sentPN = append(r.sentPN, pn)
 	r.h.SentPacket(r.now, pn, protocol.InvalidPacketNumber, nil, frames, protocol.Encryption1RTT, protocol.ECNNon, size, mtuProbe, false)
@@ -250,6 +306,7 @@ func (r *c20HRun) opAck(op c20HOp) {
 		}
 	}
 	r.ackFrames++
+	r.eventPrior = r.shadow
 	_, err := r.h.ReceivedAck(&wire.AckFrame{AckRanges: ranges, DelayTime: time.Duration(op.E) * time.Microsecond}, protocol.Encryption1RTT, r.now)
 	if err != nil {
 		r.ackErrs++
@@ -278,6 +335,7 @@ func (r *c20HRun) exec(ops []c20HOp) {
 				r.now = t
 			}
 			r.timers++
+			r.eventPrior = r.shadow
 			r.h.OnLossDetectionTimeout(r.now)
 		case "T":
 			if op.A > 0 && int64(r.now) < math.MaxInt64/2 {
@@ -439,6 +497,7 @@ func TestVerifC20SendMode(t *testing.T) {
 			r.exec(ops)
 			c.Eval(r.fingerprint())
 			l.Count("handler_histories", 1)
+			l.Count("controller_calls_checked", int64(r.spyCalls))
 			l.Count("sendmode_any", int64(r.nAny))
 			l.Count("sendmode_pacing_limited", int64(r.nPacing))
 			l.Count("sendmode_ack_congestion_limited", int64(r.nAckCong))
